@@ -1316,3 +1316,30 @@ _CONSTRUCTORS = {
 }
 
 np_proxy = NpProxy()
+
+
+class ScipyProxy(object):
+    """Stands in for the `scipy` global of verif modules: SciPy runs on
+    concrete arguments; a call with symbolic arguments is outside the model."""
+    def __init__(self, real, path="scipy"):
+        self._real = real
+        self._path = path
+
+    def __getattr__(self, name):
+        import types
+        real = getattr(self._real, name)
+        path = "%s.%s" % (self._path, name)
+        if isinstance(real, types.ModuleType) or (not callable(real) and hasattr(real, "__dict__") and not isinstance(real, np.ndarray)):
+            return ScipyProxy(real, path)
+        if callable(real):
+            if hasattr(real, "ppf") or hasattr(real, "cdf"):
+                return ScipyProxy(real, path)
+
+            def wrapper(*args, **kwargs):
+                if has_sym(list(args)) or has_sym(list(kwargs.values())):
+                    raise Unsupported("%s on symbolic values is not modelled" % path)
+                # object arrays with concrete content go to SciPy as float arrays
+                args = [np.array(a.tolist(), dtype=float) if isinstance(a, SymArray) else a for a in args]
+                return real(*args, **kwargs)
+            return wrapper
+        return real
